@@ -81,6 +81,22 @@ func SegAPPn(n byte, size int) Seg {
 	return Seg{Marker: 0xE0 + n, Payload: p, Kind: fmt.Sprintf("app%d", n)}
 }
 
+// SegHostile is a non-metadata segment of an exact payload length whose whole
+// payload repeats marker-looking structure (a fake Exif APP1, a fake XMP APP1,
+// a fake DQT, SOI/EOI), so that a scanner that resumes anywhere inside it
+// instead of after it reports callbacks or stops early.
+func SegHostile(marker byte, payloadLen int) Seg {
+	unit := []byte("\xff\xe1\x00\x16Exif\x00\x00MM\x00*\x00\x00\x00\x08\x00\x00\x00\x00\x00\x00" +
+		"\xff\xe1\x00\x2bhttp://ns.adobe.com/xap/1.0/\x00<x:xmpmeta/>" +
+		"\xff\xd8\xff\xdb\x00\x04\x00\x00\xff\xd9\xff")
+	p := make([]byte, payloadLen)
+	copy(p, "hostile\x00")
+	for i := 8; i < payloadLen; i++ {
+		p[i] = unit[(i-8)%len(unit)]
+	}
+	return Seg{Marker: marker, Payload: p, Kind: fmt.Sprintf("hostile-%02x-%d", marker, payloadLen)}
+}
+
 // BuildJPEG writes SOI, the segments, then DQT DHT SOF0 SOS, entropy data, EOI.
 func BuildJPEG(segs []Seg, withSOI bool) (*Doc, []Seg) {
 	d := &Doc{}
